@@ -153,6 +153,10 @@ func (c *Calcium) withNodesLocked(ctx context.Context, nodeFilter *types.NodeFil
 		return err
 	}
 
+	// locks are taken in ascending key order whatever the order of the nodes is:
+	// nodes sorted by name are not sorted by pod
+	sort.SliceStable(ns, func(i, j int) bool { return genKey(ns[i]) < genKey(ns[j]) })
+
 	var lock lock.DistributedLock
 	for _, n := range ns {
 		key := genKey(n)
